@@ -25,12 +25,13 @@ TIERS = {
                  "run_timeout": 120.0, "determinism_every": 300, "determinism_max": 200},
 }
 
-RULE = ("first, bounded-exhaustively: every history of length <= 2 (quick) / <= 4 (thorough) over "
-        "the alphabet {create(f2003), create(f2008), 8 fixed valid, 5 fixed invalid programs, 2 files "
-        "that INCLUDE a same-named file from different directories, deletion and rewriting of one "
-        "of those include files}, "
-        "each followed by create(s); parse(x) for both standards and 4 fixed probe programs "
-        "(420 / 8420 runs; longer histories over the same alphabet are sampled, enumerated by run index); then, for the rest of the budget, one "
+RULE = ("first, bounded-exhaustively: every history of length <= 2 (quick) / <= 3 (thorough) over "
+        "the 22-symbol alphabet {create(f2003), create(f2008), 9 fixed valid, 6 fixed invalid programs, "
+        "2 files that INCLUDE a same-named file from different directories, a file whose parse fails "
+        "inside the included file, deletion and rewriting of one of those include files}, "
+        "each followed by create(s); parse(x) for both standards and 9 fixed probe programs, the "
+        "f2008-only probes under f2003 and the two including files "
+        "(506 / 11154 runs; longer histories over the same alphabet are sampled, enumerated by run index); then, for the rest of the budget, one "
         "run = one seeded history of <=12 operations over {create(f2003|f2008|None|invalid), "
         "parse(valid_i|invalid_j, reader options, reader kind, stream fault at line k), direct "
         "rule use, fparser1 api.parse, print of an earlier tree, edit of an earlier tree, memo "
